@@ -157,3 +157,17 @@ Definition constrain_sound (lo hi b : Z) (c : code) (entry : Z) : Prop :=
   lo <= v <= hi -> m (fp s0 - 3) = v mod P -> rc + 1 < P -> rc_ok m rc (rc + 1) ->
   fp s' = fp s0 /\ m (ap s' - 3) = rc + 1 /\
   m (ap s' - 2) = (if v <? b then 0 else 1) /\ m (ap s' - 1) = v mod P.
+
+(* downcast<felt252, BoundedInt<lb, hb>> (range_reduction.rs): (RangeCheck, felt252) -> (RangeCheck, Option<T>);
+   the felt a denotes a value of [lb, hb] iff a itself or a - P lies in it *)
+Definition felt_in (lb hb a : Z) : bool :=
+  ((lb <=? a) && (a <=? hb)) || ((lb <=? a - P) && (a - P <=? hb)).
+Definition feltcast_sound (lb hb n_some n_none : Z) (c : code) (entry : Z) : Prop :=
+  forall (m : mem) (pb : Z) (s0 s' : st),
+  mem_canonical m -> pc s0 = pb + entry -> reaches m pb c 0 s0 s' ->
+  let rc := m (fp s0 - 4) in let a := m (fp s0 - 3) in
+  rc + 3 < P -> rc_ok m rc (rc + 3) ->
+  fp s' = fp s0 /\
+  if felt_in lb hb a
+  then m (ap s' - 3) = rc + n_some /\ m (ap s' - 2) = 0 /\ m (ap s' - 1) = a
+  else m (ap s' - 3) = rc + n_none /\ m (ap s' - 2) = 1 /\ m (ap s' - 1) = 0.
